@@ -4,6 +4,7 @@ package main
 
 import (
 	"fmt"
+	"net/http/httptest"
 	"os"
 	"os/exec"
 	"regexp"
@@ -11,7 +12,9 @@ import (
 	"sync"
 	"time"
 
+	sessionsapi "github.com/oauth2-proxy/oauth2-proxy/v7/pkg/apis/sessions"
 	"github.com/oauth2-proxy/oauth2-proxy/v7/pkg/authentication/basic"
+	"github.com/oauth2-proxy/oauth2-proxy/v7/verifx/evidence"
 	"github.com/oauth2-proxy/oauth2-proxy/v7/verifx/world"
 )
 
@@ -26,6 +29,84 @@ import (
 var raceSupplements = map[string]func(){
 	"C20": raceC20,
 	"C12": raceC12,
+	"C07": raceC07,
+	"C10": raceC10,
+}
+
+// raceC07: requests of all credentials on the proxied and the auth-only path, served by 2-16
+// really concurrent goroutines under the three configurations of the concurrent part.
+func raceC07() {
+	e := c07NewEnv(&Ctx{Part: evidence.NewPart()})
+	defer e.up.Close()
+	for _, cfg := range c07ConcConfigs() {
+		px, err := e.build(cfg)
+		if err != nil {
+			fmt.Println("RACE-SUPPLEMENT C07 setup failed:", err)
+			return
+		}
+		for _, n := range []int{2, 4, 8, 16} {
+			var wg sync.WaitGroup
+			for g := 0; g < n; g++ {
+				wg.Add(1)
+				go func(g int) {
+					defer wg.Done()
+					for i := 0; i < 40; i++ {
+						cr := e.creds[(g+i)%len(e.creds)]
+						target := "/app"
+						if (g+i/len(e.creds))%2 == 1 {
+							target = "/oauth2/auth"
+						}
+						world.Serve(px.H, &world.Req{Method: "GET", Target: target, Host: c07Host, Headers: c07ClientHeaders(cr, c07Styles[(g+i)%len(c07Styles)])})
+					}
+				}(g)
+			}
+			wg.Wait()
+			e.up.Take()
+			fmt.Printf("RACE-SUPPLEMENT C07 %s goroutines=%d done\n", cfg.Name, n)
+		}
+	}
+}
+
+// raceC10: browsers saving and loading sessions of different sizes concurrently (both stores).
+func raceC10() {
+	up := world.NewUpstream("race")
+	defer up.Close()
+	for _, store := range []string{"cookie", "redis"} {
+		cfg := &ProxyCfg{Flags: append(baseFlags(up.URL()), "--email-domain=*", "--cookie-secure=false")}
+		if store == "redis" {
+			cfg.Redis = world.NewRedis()
+		}
+		px := mustProxy(cfg)
+		for _, n := range []int{2, 4, 8, 16} {
+			var wg sync.WaitGroup
+			for g := 0; g < n; g++ {
+				wg.Add(1)
+				go func(g int) {
+					defer wg.Done()
+					who := fmt.Sprintf("user%d", g)
+					jar := world.NewJar()
+					for round, size := range []int{900, 5200, 300, 9000, 2500} {
+						want := &sessionsapi.SessionState{Email: who + "@example.com", User: who, AccessToken: who + "-" + c02Incompressible(size, int64(g*10+round))}
+						rec := httptest.NewRecorder()
+						req, _ := (&world.Req{Method: "GET", Target: "/", Host: "app.example.com", Headers: cookieHdr(jar)}).Parse()
+						if err := px.P.sessionStore.Save(rec, req, want); err != nil {
+							continue
+						}
+						jar.SetCookies("http", "app.example.com", "/", rec.Header())
+						req2, _ := (&world.Req{Method: "GET", Target: "/", Host: "app.example.com", Headers: cookieHdr(jar)}).Parse()
+						_, _ = px.P.sessionStore.Load(req2)
+						world.Serve(px.H, &world.Req{Method: "GET", Target: "/app", Host: "app.example.com", Headers: cookieHdr(jar)})
+					}
+				}(g)
+			}
+			wg.Wait()
+			up.Take()
+			fmt.Printf("RACE-SUPPLEMENT C10 %s goroutines=%d done\n", store, n)
+		}
+		if cfg.Redis != nil {
+			cfg.Redis.Close()
+		}
+	}
 }
 
 func raceC20() {
@@ -168,7 +249,7 @@ func runRaceSupplement(c *Ctx, id string) {
 	c.Info["supplement_race_detector"] = info
 }
 
-var raceEntryPoints = []string{".ServeHTTP(", ".Validate(", "loadHTPasswdFile(", "LoadAuthenticatedEmailsFile(", ".IsValid(", "VerifReload("}
+var raceEntryPoints = []string{".ServeHTTP(", ".Save(", ".Load(", ".Clear(", ".Validate(", "loadHTPasswdFile(", "LoadAuthenticatedEmailsFile(", ".IsValid(", "VerifReload("}
 
 // raceStackByImplementation decides whether an access stack of a race report belongs to the
 // implementation: walking from the access towards the goroutine's root, an entry point of the
